@@ -233,6 +233,9 @@ func suiteRedisConc(c *Ctx) {
 	}
 	redisConcCuckoo(c, s, true)
 	redisConcTopK(c, s, true)
+	for r := 0; r < c.scale(24, 120); r++ {
+		redisConcCuckooRemoveInsert(c, s, r)
+	}
 	for r := 0; r < c.scale(40, 300); r++ {
 		redisConcMerge(c, s, "cms")
 		redisConcMerge(c, s, "hll")
@@ -528,6 +531,58 @@ func redisConcCuckoo(c *Ctx, s *cmdSched, targeted bool) {
 	}
 	if alternations(order) >= 2 {
 		c.nontrivial(fmt.Sprint("cuckoo", order))
+	}
+}
+
+// Remove of one element against Insert of another into the same bucket (other fingerprint, room
+// left, no hole): every command of either is a script that searches the list itself, so every
+// interleaving must end with the removed element gone and the two others stored.
+func redisConcCuckooRemoveInsert(c *Ctx, s *cmdSched, round int) {
+	f, err := gostatix.NewCuckooFilterRedisWithRetries(1, 4, 3, 3)
+	if err != nil {
+		return
+	}
+	c.rep.Cases++
+	var elems [][]byte
+	fps := map[string]bool{}
+	for i := 0; len(elems) < 3 && i < 400; i++ {
+		e := []byte(fmt.Sprintf("ri%d-%d", c.rng.Intn(1000), i))
+		if fp, _, _, ok := cuckooPos(e, 1, 3); ok && !fps[fp] {
+			fps[fp] = true
+			elems = append(elems, e)
+		}
+	}
+	if len(elems) < 3 {
+		return
+	}
+	z, y, x := elems[0], elems[1], elems[2]
+	if round%2 == 0 {
+		f.Insert(z, false)
+		f.Insert(y, false)
+	} else {
+		f.Insert(y, false)
+		f.Insert(z, false)
+	}
+	var removed, insertedOK bool
+	var rerr error
+	workers := []func(){
+		func() { removed, rerr = f.Remove(y) },
+		func() { insertedOK = f.Insert(x, false) },
+	}
+	fixedSchedules := [][]int{{0, 1, 1, 1, 0, 0}, {0, 1, 1, 0, 1, 0}, {1, 0, 1, 0, 1, 0}, {0, 1, 0, 1, 0, 1}, nil, nil}
+	order := s.runScheduled(c.rng.Int63(), fixedSchedules[round%len(fixedSchedules)], workers)
+	c.op("cuckoo.remove-vs-insert")
+	fx, _ := f.Lookup(x)
+	fy, _ := f.Lookup(y)
+	fz, _ := f.Lookup(z)
+	d, _ := parseCuckoo(f.Export())
+	if !removed || rerr != nil || !insertedOK || !fx || fy || !fz || f.Length() != 2 || d.stored() != 2 {
+		c.fail([]string{"C16", "C13"}, "rediscuckoo-remove-vs-insert",
+			fmt.Sprintf("CuckooFilterRedis(1 bucket of 4): Remove(y) concurrent with Insert(x) into the bucket holding y and z: Remove=%v (%v) Insert=%v; afterwards Lookup(x)=%v Lookup(y)=%v Lookup(z)=%v Length=%d stored=%d (want true/true, true false true, 2, 2)", removed, rerr, insertedOK, fx, fy, fz, f.Length(), d.stored()),
+			map[string]interface{}{"elements": poolHex(elems), "schedule": order})
+	}
+	if alternations(order) >= 2 {
+		c.nontrivial(fmt.Sprint("cuckoo-ri", order))
 	}
 }
 
